@@ -411,7 +411,11 @@ func baseToNumber(L *LState) int {
 		L.ArgError(2, "base out of range")
 	}
 
-	switch lv := L.CheckAny(1).(type) {
+	arg := L.CheckAny(1)
+	if lv, ok := arg.(LNumber); ok && base != 10 {
+		arg = LString(lv.String()) // with an explicit base the number is read through its text: tonumber(10, 16) == 16
+	}
+	switch lv := arg.(type) {
 	case LNumber:
 		L.Push(lv)
 	case LString:
